@@ -5,11 +5,11 @@ CONSTANTS
   MaxS = 2147483647
   NDep = 2
   NWd = 1
-  NSwap = 2
+  NSwap = 1
   Amounts = {1, 3, 10, 25}
   Pairs = 1
   WdAmounts = {10}
-  CfgIds = {2, 3, 4, 8, 11}
+  CfgIds = {2, 3, 8}
   ScenIds = {1, 2, 6}
   FixIds = {1, 2, 3}
   VaryPrices = FALSE
